@@ -272,7 +272,7 @@ class Replay:
             elif op == "setdir":
                 d = self.dirs[w]
                 self.inner_obj.cache_directory = d if a["f"] == "str" else Path(d)
-                if self.inner_obj.cache_directory != str(d if a["f"] == "str" else Path(d)):
+                if os.path.expanduser(str(self.inner_obj.cache_directory)) != os.path.expanduser(str(d)):      # as given or expanded: both are "the directory"
                     return ("cache_directory", "after `cache_directory = %r` the property reads %r" % (d, self.inner_obj.cache_directory))
             elif op == "setdirbad":
                 self.inner_obj.cache_directory = None
